@@ -389,13 +389,14 @@ static int check_stream(const char *name,const bytes_t *in,int nlinks){
 }
 
 
+static int holes=0;
 static long run(const bytes_t *in,int seekable,int half){
   OggVorbis_File vf; ov_callbacks cb; src_t src; long tot=0; int bs,last=-1;
   src.in=in; src.pos=0; src.mode=0; src.calls=0;
   cb.read_func=cb_read; cb.seek_func=seekable?cb_seek:NULL; cb.tell_func=seekable?cb_tell:NULL; cb.close_func=NULL;
   if(ov_open_callbacks(&src,&vf,NULL,0,cb)<0)return -1;
   if(half)printf("  ov_halfrate -> %d\n",ov_halfrate(&vf,1));
-  while(1){ float **p; long r=ov_read_float(&vf,&p,4096,&bs); if(r==0)break; if(r<0){printf("  ret %ld at %ld\n",r,tot);continue;}
+  while(1){ float **p; long r=ov_read_float(&vf,&p,4096,&bs); if(r==0)break; if(r<0){printf("  ret %ld at %ld\n",r,tot);holes++;continue;}
     if(bs!=last){printf("  link %d starts at sample %ld\n",bs,tot);last=bs;} tot+=r; }
   ov_clear(&vf); return tot;
 }
@@ -403,9 +404,13 @@ int main(void){
   bytes_t s={0,0,0};
   encode_link(&s,1,44100,0.4f,40000,0x3001,31,0);
   encode_link(&s,1,44100,0.4f,30000,0x3002,32,0);
-  printf("seekable full: %ld\n",run(&s,1,0));
-  printf("seekable half: %ld\n",run(&s,1,1));
-  printf("streaming full: %ld\n",run(&s,0,0));
-  printf("streaming half: %ld\n",run(&s,0,1));
-  return 0;
+  long a,b,c,d; int bad=0;
+  printf("seekable full: %ld\n",a=run(&s,1,0));
+  printf("seekable half: %ld\n",b=run(&s,1,1));
+  printf("streaming full: %ld\n",c=run(&s,0,0));
+  printf("streaming half: %ld\n",d=run(&s,0,1));
+  if(holes){printf("VIOLATION: %d hole/error indication(s) on an intact stream\n",holes);bad=1;}
+  if(a!=c||b!=d){printf("VIOLATION: streaming and seekable sample counts differ (%ld/%ld full, %ld/%ld half)\n",c,a,d,b);bad=1;}
+  free(s.d);
+  return bad;
 }
